@@ -71,6 +71,33 @@ def copy_arg(v, reverse=False):
     return v
 
 
+def retype(v, style):
+    """The same argument value in another legal Python type (`style`: 'plain' | 'numpy' | 'odict' | '0d'):
+    numbers as numpy scalars / 0-d arrays, words as numpy strings, mappings as OrderedDict, sequences as tuples or arrays."""
+    import collections
+
+    if style in (None, "plain"):
+        return v
+    if isinstance(v, dict):
+        items = [(k, retype(x, style)) for k, x in v.items()]
+        return collections.OrderedDict(items) if style == "odict" else dict(items)
+    if isinstance(v, bool) or v is None:
+        return v
+    if isinstance(v, (int, float)):
+        if style == "numpy":
+            return np.int64(v) if isinstance(v, int) else (np.float32(v) if float(np.float32(v)) == v else np.float64(v))
+        if style == "0d":
+            return np.array(v)
+        return v
+    if isinstance(v, str):
+        return np.str_(v) if style == "numpy" else v
+    if isinstance(v, (list, tuple)):
+        if style == "numpy" and v and all(isinstance(x, str) for x in v):
+            return np.array(list(v))
+        return tuple(retype(x, style) for x in v) if style in ("odict", "0d") else type(v)(retype(x, style) for x in v)
+    return v
+
+
 def grid_kwargs(settings):
     kw = {}
     for k in ("periodic", "boundary", "fill_value"):
